@@ -24,6 +24,11 @@
 // by a named / bare / missing one, in front of a sentinel value: whenever the
 // library accepts such a string, Size() must be the bytes the decoder consumed.
 //
+// Family "indep" (indep.go): two or three decoded trees, ONE node of one of
+// them changed through every handle the API gives (typed pointer, UnmarshalBinary
+// into the leaf, Set): that tree denotes the changed tree, the others still
+// marshal to the bytes they were decoded from.
+//
 // Violation keys are "<family>/<clause>/<feature>" where the feature is found
 // by neutralising one alphabet element at a time (non-empty strict arrays ->
 // null, repeated keys renamed, count hints made honest, ...) until the case
@@ -366,7 +371,7 @@ func run(c *hl.Ctx) {
 		"observed by the independent AMF0 decoder. Family bytes: reference encodings of ALL wire-level trees with <= M nodes (keys with repetition, empty key, " +
 		"ECMA count hints n/0/n+1/n-1/0xFFFFFFFF) x suffix {none, stray byte, another value}; plus boolean body bytes 0..255. " +
 		"Non-trivial = distinct case (hash of family + encoding) that the library marshalled/decoded successfully and that passed every clause; " +
-		"strings the library rejects are counted separately (bytes_rejected_by_library) and are not non-trivial." + historyRule + nearValidRule)
+		"strings the library rejects are counted separately (bytes_rejected_by_library) and are not non-trivial." + historyRule + nearValidRule + indepRule)
 	c.Assume("the reference AMF0 codec (engine/ref/amf0ref, written from amf0_spec_121207) is correct; it is cross-checked against itself on every byte string",
 		"string contents are fixed per length class (0, 1, 2, 65535 bytes); number alphabet is the listed 11 bit patterns",
 		"strict-array elements are given the keys the API demands by a fixed rotation over {\"0\",\"\",\"b\",\"ab\"} (decimal indices beyond 4 elements)")
@@ -398,6 +403,8 @@ func run(c *hl.Ctx) {
 	}
 	// family history (history.go): small, so it runs first
 	idx = runHistory(c, idx, 0, 4)
+	// family indep (indep.go): independence of the values the decoder hands out
+	idx = runIndep(c, idx)
 	// family nearvalid (nearvalid.go): strings one edit away from the encodings of small wire trees
 	idx = runNearValid(c, idx, 0)
 	// simplest first across profiles: interleave by node count
@@ -530,6 +537,18 @@ func replay(c *hl.Ctx, raw json.RawMessage) {
 			panic(err)
 		}
 		replayNear(c, &cs)
+	case "indep":
+		var cs iCase
+		if err := json.Unmarshal(raw, &cs); err != nil {
+			panic(err)
+		}
+		replayIndep(c, &cs)
+	case "indep-buffer":
+		var cs iBufCase
+		if err := json.Unmarshal(raw, &cs); err != nil || cs.Tree == nil {
+			panic(fmt.Sprintf("indep-buffer replay: %v", err))
+		}
+		checkBuffer(c, cs.Tree)
 	case "history":
 		var cs histCase
 		if err := json.Unmarshal(raw, &cs); err != nil {
